@@ -23,6 +23,7 @@ pub fn main(api: Api) {
             uper(&api, &args[2], &mut out);
             stream(&api, &args[2], &mut out);
         }
+        "versions" => versions(&api, &args[2], &mut out),
         other => {
             eprintln!("unknown domain {}", other);
             std::process::exit(2);
@@ -248,4 +249,87 @@ fn stream(api: &Api, input: &str, out: &mut Out) {
         }
     }
     out.line(&json!({"summary_stream": true, "histories": n, "bad": bad}));
+}
+
+/// C05: value written under schema version tw (followed by the sentinel INTEGER(0..7) = 5 of zoo type 1 in the same
+/// stream), read under version tr: the expected value is Versions!Conv, then the sentinel, then nothing.
+fn versions(api: &Api, input: &str, out: &mut Out) {
+    let mut n = 0u64;
+    let mut stats: std::collections::BTreeMap<String, u64> = Default::default();
+    let mut shown: std::collections::BTreeMap<String, u64> = Default::default();
+    for (i, c) in read_lines(input) {
+        n += 1;
+        let (tw, tr) = (usize_of(&c["tw"]), usize_of(&c["tr"]));
+        let unknown = c["unknown"].as_bool().unwrap();
+        let devname = c["dev"].as_str().unwrap_or("");
+        let r = guarded(|| -> Result<(), (String, String)> {
+            let mut w = UperWriter::default();
+            match (api.write)(tw, &c["v"], &mut w) {
+                None => return Err(("harness".into(), "value not constructible".into())),
+                Some(Err(e)) => return Err(("write".into(), format!("writer refused: {}", per_err_name(&e)))),
+                Some(Ok(())) => {}
+            }
+            let (eb, el) = image(&c["bits"]);
+            if w.bit_len() != el || w.byte_content() != &eb[..] {
+                return Err(("bits".into(), format!("writer produced {} bits, X.691 demands {}", w.bit_len(), el)));
+            }
+            (api.write)(1, &json!(5), &mut w).unwrap().map_err(|e| ("write".to_string(), per_err_name(&e)))?;
+            let bytes = w.byte_content().to_vec();
+            let mut r = UperReader::from((&bytes[..], w.bit_len()));
+            match (api.read)(tr, &mut r) {
+                Err(e) => {
+                    if unknown {
+                        return Ok(()); // an unknown alternative / item may be reported as an error
+                    }
+                    return Err(("read-err".into(), format!("reader failed: {}", per_err_name(&e))));
+                }
+                Ok(x) => {
+                    if unknown {
+                        return Err(("wrong-value".into(), format!("unknown alternative/item decoded as a value: {}", x)));
+                    }
+                    if x != c["exp"] {
+                        return Err(("wrong-value".into(), format!("decoded {} instead of {}", x, c["exp"])));
+                    }
+                }
+            }
+            if c["devexact"].as_bool().unwrap_or(false) {
+                // open finding, modelled exactly: the value is right and precisely the unknown additions stay unread
+                let unread = usize_of(&c["unread"]);
+                if r.bits_remaining() != unread + 3 {
+                    return Err(("dev-mismatch".into(), format!("open finding NoSkipUnknownAdditions predicts {} unread bits before the sentinel, found {}", unread, r.bits_remaining() - 3.min(r.bits_remaining()))));
+                }
+                return Err(("dev-exact".into(), "unknown extension additions stay unread".into()));
+            }
+            match (api.read)(1, &mut r) {
+                Ok(s) if s == json!(5) => {}
+                Ok(s) => return Err(("sentinel".into(), format!("the value following the message was read as {} instead of 5", s))),
+                Err(e) => return Err(("sentinel".into(), format!("the value following the message could not be read: {}", per_err_name(&e)))),
+            }
+            if r.bits_remaining() != 0 {
+                return Err(("sentinel".into(), format!("{} bits remain after the sentinel", r.bits_remaining())));
+            }
+            Ok(())
+        });
+        let (class, why) = match r {
+            Ok(Ok(())) => {
+                *stats.entry(if tw == tr { "same-version" } else if unknown { "unknown-reported" } else { "cross-version-ok" }.to_string()).or_insert(0) += 1;
+                continue;
+            }
+            Ok(Err(x)) => x,
+            Err(p) => ("panic".to_string(), format!("panic: {}", p)),
+        };
+        if !devname.is_empty() && class != "dev-mismatch" && (class == "dev-exact" || !c["devexact"].as_bool().unwrap_or(false)) {
+            *stats.entry(format!("dev:{}", devname)).or_insert(0) += 1;
+            continue;
+        }
+        *stats.entry(format!("bad:{}", class)).or_insert(0) += 1;
+        let cnt = shown.entry(format!("{}/{}/{}", class, tw, tr)).or_insert(0);
+        *cnt += 1;
+        if *cnt <= 2 {
+            let mut cc = c.clone();
+            cc["bits"] = json!(format!("({} bits)", c["bits"].as_array().unwrap().len()));
+            out.line(&json!({"line": i, "class": class, "why": why, "case": cc}));
+        }
+    }
+    out.line(&json!({"summary": true, "cases": n, "stats": stats}));
 }
